@@ -35,7 +35,7 @@ class write_only_after_success:
     }
 
 
-@contract("nanoemoji.nanoemoji._run", props=["C06", "C19"])
+@contract("nanoemoji.nanoemoji._run", props=["C06", "C19", "C01"])
 class cli_reuse_enabled_and_disabled:
     bounded_only = True
     gen = X.gen_cli_reuse
@@ -47,6 +47,7 @@ class cli_reuse_enabled_and_disabled:
         # and the documented -1 both build, and both fonts paint the sources
         "both-build-and-paint-the-sources": lambda fmt, glyphs, tolerances, result: X.cli_reuse_problems(fmt, glyphs, tolerances, result) == [],
     }
+    known_witnesses = {"K13": X.k13_witness}
 
 
 # ---------------------------------------------------------------------------- C04
@@ -110,8 +111,9 @@ class cli_options_by_flag_and_file:
         # through the real command line: every option, given by flag, in the TOML file or in
         # both (the flag wins), reaches its observable in the font written under the requested
         # output name
-        "options-reach-their-observables": lambda glyphs, overrides, by_flag, both, result: X.cli_option_problems(glyphs, overrides, by_flag, both, result) == [],
+        "options-reach-their-observables": lambda glyphs, overrides, by_flag, both, user_fea, result: X.cli_option_problems(glyphs, overrides, by_flag, both, result, user_fea) == [],
     }
+    known_witnesses = {"K14": X.k14_witness}
 
 
 # ---------------------------------------------------------------------------- C14
